@@ -1145,7 +1145,7 @@ TRUSTED_BASE = [
     'importlib.metadata.entry_points is replaced by a table-driven function in the exhaustive registry stream (the real one is used in the random stream)',
 ]
 ASSUMPTIONS = [
-    'codec round trip: bytes.decode(str.encode(s)) == s and reading a text file gives the same (hypotheses of entry_points_agree; proved for the modelled utf-8, latin-1, ascii codecs; the modelled codecs incl. utf-16 are compared with CPython on every run; cp1251 is exercised by the oracle only)',
+    'codec round trip: bytes.decode(str.encode(s)) == s and reading a text file gives the same (hypotheses of entry_points_agree; proved for the modelled utf-8, latin-1, ascii, utf-16 codecs; the modelled codecs are compared with CPython on every run; cp1251 is exercised by the oracle only)',
     'yaml.dump(..., encoding="UTF-8") is yaml.dump(..., encoding=None) encoded in UTF-8 (dump_consistent, hypothesis of yaml_to_bytes_partial)',
     'a plug-in parse_stream returns self.data and does not itself raise UnicodeDecodeError',
     'POSIX: os.linesep is "\\n" (text files are written without newline translation)',
@@ -1154,7 +1154,7 @@ PARTIAL = [
     'entry-point agreement is proved for BaseParser/BaseWriter and the module-level functions over an abstract plug-in; of the overrides only the YAML writer is modelled (yaml_to_bytes_refuted / _partial), the BibTeXML overrides and all parse_stream/write_stream bodies are covered by the oracle only',
     'parse_file of a named file reads with universal newlines: the theorem relates it to parse_string of the newline-normalised text (equal when the text has no CR)',
     'write_file_writes_to_bytes is refuted as stated (FC17b); write_file_writes_to_bytes_partial needs "something was written or the empty text encodes to nothing"',
-    'codec round trip is proved for utf-8, latin-1, ascii (utf8_roundtrip ...); for other encodings it is a hypothesis of entry_points_agree',
+    'codec round trip is proved for the four modelled codecs utf-8, latin-1, ascii, utf-16 (utf8_roundtrip, utf16_roundtrip, modelled_entry_points_agree); for other encodings it is a hypothesis of entry_points_agree',
 ]
 
 def describe(fn, arg):
